@@ -200,9 +200,18 @@ fn c06_case(f: &str, s: &[u32], t: &[u32], r: &[u32], i: i32, n: i32) -> Option<
     }
 }
 
+/// publish a case (only in the re-run that localises a hang) and hand it on
+pub fn pubj(v: Value) -> Value {
+    publish_case(|| v.clone());
+    v
+}
+
 fn c06_report(rep: &mut Report, f: &str, s: &[u32], t: &[u32], r: &[u32], i: i32, n: i32) {
     rep.inc("evaluations");
-    if let Some(m) = c06_case(f, s, t, r, i, n) {
+    publish_case(|| json!({"fn": f, "s": jarr(s), "t": jarr(t), "r": jarr(r), "i": i, "n": n}));
+    let m = c06_case(f, s, t, r, i, n);
+    unpublish_case();
+    if let Some(m) = m {
         rep.violation("C06", "c06", json!({"fn": f, "s": jarr(s), "t": jarr(t), "r": jarr(r), "i": i, "n": n}), m);
     }
 }
@@ -348,7 +357,7 @@ fn c06_meta(ctx: &Ctx) -> Meta {
 }
 
 pub fn c06_engine() -> SimpleEngine {
-    SimpleEngine { name: "c06", nb: |_| NB, run: c06_run, replay: c06_replay, meta: c06_meta, hang_violation: false }
+    SimpleEngine { name: "c06", nb: |_| NB, run: c06_run, replay: c06_replay, meta: c06_meta, hang_violation: true }
 }
 
 // =============================================================================================
@@ -393,6 +402,7 @@ pub fn ref_parse(t: &[char]) -> Vec<u32> {
 }
 
 fn c08_parse_case(text: &str) -> Option<String> {
+    publish_case(|| json!({"kind": "parse", "text": text}));
     let t: Vec<char> = text.chars().collect();
     let exp = ref_parse(&t);
     match guarded(|| parse_smt_literal(text)) {
@@ -408,6 +418,7 @@ fn c08_parse_case(text: &str) -> Option<String> {
 
 /// printing: printable ASCII only, quotes doubled, reads back to the same string
 fn c08_print_case(s: &[u32]) -> Option<String> {
+    publish_case(|| json!({"kind": "print", "s": s}));
     let ms = mk(s);
     let r = guarded(|| ms.to_string());
     let printed = match r {
@@ -441,10 +452,17 @@ fn c08_print_case(s: &[u32]) -> Option<String> {
     if codes(&back) != s {
         return Some(format!("Display of {:?} = {} reads back as {:?}", s, printed, codes(&back)));
     }
+    // and by the SMT-LIB reading of the literal itself (independent of the crate's parser)
+    let unc: Vec<char> = un.chars().collect();
+    let exp = ref_parse(&unc);
+    if exp != s {
+        return Some(format!("Display of {:?} = {} denotes {:?} under the SMT-LIB 2.6 escape rules", s, printed, exp));
+    }
     None
 }
 
 fn c08_char_case(x: u32) -> Option<String> {
+    publish_case(|| json!({"kind": "char", "x": x}));
     for (name, txt) in [("char_to_smt", char_to_smt(x)), ("smt_char_as_string", smt_char_as_string(x))] {
         if txt.chars().any(|c| (c as u32) < 0x20 || (c as u32) > 0x7E) {
             return Some(format!("{}({:#x}) = {:?} is not printable ASCII", name, x, txt));
@@ -453,6 +471,10 @@ fn c08_char_case(x: u32) -> Option<String> {
         let back = parse_smt_literal(&un);
         if codes(&back) != vec![x] {
             return Some(format!("{}({:#x}) = {:?} reads back as {:?}", name, x, txt, codes(&back)));
+        }
+        let unc: Vec<char> = un.chars().collect();
+        if ref_parse(&unc) != vec![x] {
+            return Some(format!("{}({:#x}) = {:?} denotes {:?} under the SMT-LIB 2.6 escape rules", name, x, txt, ref_parse(&unc)));
         }
     }
     None
@@ -679,7 +701,7 @@ fn c08_meta(ctx: &Ctx) -> Meta {
 }
 
 pub fn c08_engine() -> SimpleEngine {
-    SimpleEngine { name: "c08", nb: |_| NB, run: c08_run, replay: c08_replay, meta: c08_meta, hang_violation: false }
+    SimpleEngine { name: "c08", nb: |_| NB, run: c08_run, replay: c08_replay, meta: c08_meta, hang_violation: true }
 }
 
 // =============================================================================================
@@ -803,6 +825,7 @@ fn c09_multi_case(s: &[u32]) -> Option<String> {
 }
 
 fn c09_viol(rep: &mut Report, case: Value, m: Option<String>) {
+    unpublish_case();
     rep.inc("evaluations");
     if let Some(m) = m {
         rep.violation("C09", "c09", case, m);
@@ -827,7 +850,7 @@ fn c09_run(ctx: &Ctx, batch: usize, nb: usize, rep: &mut Report) {
             if a != b && (a.starts_with(b) || b.starts_with(a)) {
                 rep.inc("nontrivial"); // ordered pairs where one string is a proper prefix of the other
             }
-            c09_viol(rep, json!({"kind": "order", "a": a, "b": b}), c09_order_case(a, b));
+            c09_viol(rep, pubj(json!({"kind": "order", "a": a, "b": b})), c09_order_case(a, b));
         }
     }
     // order on long strings: a^i b^j and a^i b a^j up to length 20 (block-wise comparisons, differing block counts)
@@ -857,7 +880,7 @@ fn c09_run(ctx: &Ctx, batch: usize, nb: usize, rep: &mut Report) {
             if a != b && (a.starts_with(b) || b.starts_with(a)) {
                 rep.inc("nontrivial");
             }
-            c09_viol(rep, json!({"kind": "order", "a": a, "b": b}), c09_order_case(a, b));
+            c09_viol(rep, pubj(json!({"kind": "order", "a": a, "b": b})), c09_order_case(a, b));
         }
     }
     // to_int: mixed strings
@@ -865,7 +888,7 @@ fn c09_run(ctx: &Ctx, batch: usize, nb: usize, rep: &mut Report) {
         if !mine(&mut item) {
             continue;
         }
-        c09_viol(rep, json!({"kind": "to_int", "s": s}), c09_to_int_case(&s));
+        c09_viol(rep, pubj(json!({"kind": "to_int", "s": s})), c09_to_int_case(&s));
     }
     // to_int: digit strings (those of length >= 10 mostly overflow)
     let dl = if th { 11 } else { 9 };
@@ -877,7 +900,7 @@ fn c09_run(ctx: &Ctx, batch: usize, nb: usize, rep: &mut Report) {
         if item % 2048 == batch {
             beat();
         }
-        c09_viol(rep, json!({"kind": "to_int", "s": s}), c09_to_int_case(&s));
+        c09_viol(rep, pubj(json!({"kind": "to_int", "s": s})), c09_to_int_case(&s));
     }
     // to_int: around the limits
     let mut vals: Vec<u128> = vec![];
@@ -912,12 +935,12 @@ fn c09_run(ctx: &Ctx, batch: usize, nb: usize, rep: &mut Report) {
             if v > i32::MAX as u128 {
                 overflow_cases += 1;
             }
-            c09_viol(rep, json!({"kind": "to_int", "s": s}), c09_to_int_case(&s));
+            c09_viol(rep, pubj(json!({"kind": "to_int", "s": s})), c09_to_int_case(&s));
             // a non-digit anywhere makes the result -1, however long the digit prefix is
             for (pos, ch) in [(0usize, 0x61u32), (s.len(), 0x61), (s.len() / 2, 0x2f), (s.len(), 0x3a)] {
                 let mut t = s.clone();
                 t.insert(pos, ch);
-                c09_viol(rep, json!({"kind": "to_int", "s": t}), c09_to_int_case(&t));
+                c09_viol(rep, pubj(json!({"kind": "to_int", "s": t})), c09_to_int_case(&t));
             }
         }
     }
@@ -950,20 +973,20 @@ fn c09_run(ctx: &Ctx, batch: usize, nb: usize, rep: &mut Report) {
         if item % 4096 == batch {
             beat();
         }
-        c09_viol(rep, json!({"kind": "from_int", "n": n}), c09_from_int_case(n));
+        c09_viol(rep, pubj(json!({"kind": "from_int", "n": n})), c09_from_int_case(n));
     }
     // codes: every code point and values outside
     for x in (0..=MAX_CHAR as i32 + 40).chain([-1, -2, i32::MIN, i32::MAX, 0x10FFFF, 0x110000, 0xD800, 0xDFFF].into_iter()) {
         if !mine(&mut item) {
             continue;
         }
-        c09_viol(rep, json!({"kind": "code", "x": x}), c09_code_case(x));
+        c09_viol(rep, pubj(json!({"kind": "code", "x": x})), c09_code_case(x));
     }
     for s in all_strings(&[0x30, 0x39, 0x2f, 0x3a, 0x35, 0, MAX_CHAR, 0x660], 2) {
         if !mine(&mut item) {
             continue;
         }
-        c09_viol(rep, json!({"kind": "multi", "s": s}), c09_multi_case(&s));
+        c09_viol(rep, pubj(json!({"kind": "multi", "s": s})), c09_multi_case(&s));
     }
     if batch == 0 {
         rep.sample(|| json!({"kind": "to_int", "s": dec(5_000_000_000, 0), "expected": "panic (does not fit in i32)"}));
@@ -996,18 +1019,29 @@ fn c09_meta(ctx: &Ctx) -> Meta {
 }
 
 pub fn c09_engine() -> SimpleEngine {
-    SimpleEngine { name: "c09", nb: |_| NB, run: c09_run, replay: c09_replay, meta: c09_meta, hang_violation: false }
+    SimpleEngine { name: "c09", nb: |_| NB, run: c09_run, replay: c09_replay, meta: c09_meta, hang_violation: true }
 }
 
 // =============================================================================================
 // C17
 
-fn c17_usable(s: &SmtString, what: &str) -> Option<String> {
-    if !s.is_good() {
-        return Some(format!("{} produced {:?}, which contains a code point above 0x2FFFF", what, codes(s)));
+/// own scan of the code points (independent of the crate's is_good), cross-checked with is_good / good_string /
+/// good_char, which must all state the same fact
+fn c17_scan(s: &SmtString, what: &str) -> Option<String> {
+    let bad = s.iter().copied().find(|&c| c > MAX_CHAR);
+    let bad_ref = s.as_ref().iter().copied().find(|&c| c > MAX_CHAR);
+    if let Some(c) = bad.or(bad_ref) {
+        return Some(format!("{} produced {:?}, which contains the code point {:#x} above 0x2FFFF", what, codes(s), c));
     }
-    if s.iter().any(|&c| c > MAX_CHAR) {
-        return Some(format!("{}: iter() yields a code point above 0x2FFFF although is_good() holds", what));
+    if !s.is_good() || !good_string(s.as_ref()) || s.iter().any(|&c| !good_char(c)) {
+        return Some(format!("{}: every code point of {:?} is in [0,0x2FFFF] but is_good() = {}, good_string = {}", what, codes(s), s.is_good(), good_string(s.as_ref())));
+    }
+    None
+}
+
+fn c17_usable(s: &SmtString, what: &str) -> Option<String> {
+    if let Some(m) = c17_scan(s, what) {
+        return Some(m);
     }
     // usable with the rest of the crate: turn it into a regular expression and match it
     let s2 = s.clone();
@@ -1103,13 +1137,7 @@ fn c17_op_case(op: &str, a: &[u32], b: &[u32], c: &[u32], i: i32, j: i32) -> Opt
     });
     match r {
         Err(e) => Some(format!("{}({:?}, {:?}, {:?}, {}, {}) {}", op, a, b, c, i, j, e)),
-        Ok(s) => {
-            if !s.is_good() {
-                Some(format!("{}({:?}, {:?}, {:?}, {}, {}) = {:?} is not well formed", op, a, b, c, i, j, codes(&s)))
-            } else {
-                None
-            }
-        }
+        Ok(s) => c17_scan(&s, &format!("{}({:?}, {:?}, {:?}, {}, {})", op, a, b, c, i, j)),
     }
 }
 
@@ -1129,6 +1157,7 @@ fn c17_regex(k: i32) -> aws_smt_strings::regular_expressions::RegLan {
 }
 
 fn c17_viol(rep: &mut Report, case: Value, m: Option<String>) {
+    unpublish_case();
     rep.inc("evaluations");
     if let Some(m) = m {
         rep.violation("C17", "c17", case, m);
@@ -1186,10 +1215,10 @@ fn c17_run(ctx: &Ctx, batch: usize, nb: usize, rep: &mut Report) {
             rep.inc("nontrivial"); // texts containing a scalar value above U+2FFFF
         }
         for kind in ["str", "string", "parse"] {
-            c17_viol(rep, json!({"kind": kind, "text": t}), c17_text_case(kind, t));
+            c17_viol(rep, pubj(json!({"kind": kind, "text": t})), c17_text_case(kind, t));
         }
         if t.chars().count() == 1 {
-            c17_viol(rep, json!({"kind": "char", "text": t}), c17_text_case("char", t));
+            c17_viol(rep, pubj(json!({"kind": "char", "text": t})), c17_text_case("char", t));
         }
     }
     // every literal text of the C08 families: whatever the parser does with it, the result is well formed
@@ -1199,11 +1228,12 @@ fn c17_run(ctx: &Ctx, batch: usize, nb: usize, rep: &mut Report) {
         }
         rep.inc("evaluations");
         rep.inc("literal_texts");
+        publish_case(|| json!({"kind": "parse", "text": text}));
         match guarded(|| parse_smt_literal(text)) {
             Err(e) => rep.violation("C17", "c17", json!({"kind": "parse", "text": text}), format!("parse_smt_literal({:?}) {}", text, e)),
             Ok(s) => {
-                if !s.is_good() {
-                    rep.violation("C17", "c17", json!({"kind": "parse", "text": text}), format!("parse_smt_literal({:?}) = {:?} contains a code point above 0x2FFFF", text, codes(&s)));
+                if let Some(m) = c17_scan(&s, &format!("parse_smt_literal({:?})", text)) {
+                    rep.violation("C17", "c17", json!({"kind": "parse", "text": text}), m);
                 }
             }
         }
@@ -1214,8 +1244,8 @@ fn c17_run(ctx: &Ctx, batch: usize, nb: usize, rep: &mut Report) {
         if let Some(c) = char::from_u32(x) {
             if mine(&mut item) {
                 let t = c.to_string();
-                c17_viol(rep, json!({"kind": "char", "text": t}), c17_text_case("char", &t));
-                c17_viol(rep, json!({"kind": "str", "text": t}), c17_text_case("str", &t));
+                c17_viol(rep, pubj(json!({"kind": "char", "text": t})), c17_text_case("char", &t));
+                c17_viol(rep, pubj(json!({"kind": "str", "text": t})), c17_text_case("str", &t));
             }
         }
         x += if th { 97 } else { 1009 };
@@ -1230,10 +1260,10 @@ fn c17_run(ctx: &Ctx, batch: usize, nb: usize, rep: &mut Report) {
             rep.inc("nontrivial");
         }
         for kind in ["slice", "vec", "array"] {
-            c17_viol(rep, json!({"kind": kind, "v": v}), c17_ints_case(kind, &v));
+            c17_viol(rep, pubj(json!({"kind": kind, "v": v})), c17_ints_case(kind, &v));
         }
         if v.len() == 1 {
-            c17_viol(rep, json!({"kind": "u32", "v": v}), c17_ints_case("u32", &v));
+            c17_viol(rep, pubj(json!({"kind": "u32", "v": v})), c17_ints_case("u32", &v));
         }
     }
     // long vectors with one (or two) out-of-range values at every position (block-wise scans)
@@ -1247,11 +1277,11 @@ fn c17_run(ctx: &Ctx, batch: usize, nb: usize, rep: &mut Report) {
                 v[pos] = bad;
                 rep.inc("nontrivial");
                 for kind in ["slice", "vec"] {
-                    c17_viol(rep, json!({"kind": kind, "v": v}), c17_ints_case(kind, &v));
+                    c17_viol(rep, pubj(json!({"kind": kind, "v": v})), c17_ints_case(kind, &v));
                 }
                 let mut w = v.clone();
                 w[len - 1 - pos] = 0x2FFFF + 1 + pos as u32;
-                c17_viol(rep, json!({"kind": "vec", "v": w}), c17_ints_case("vec", &w));
+                c17_viol(rep, pubj(json!({"kind": "vec", "v": w})), c17_ints_case("vec", &w));
             }
         }
     }
@@ -1260,9 +1290,9 @@ fn c17_run(ctx: &Ctx, batch: usize, nb: usize, rep: &mut Report) {
         if !mine(&mut item) {
             continue;
         }
-        c17_viol(rep, json!({"kind": "vec", "v": [x]}), c17_ints_case("vec", &[x]));
-        c17_viol(rep, json!({"kind": "vec", "v": [0x61, x]}), c17_ints_case("vec", &[0x61, x]));
-        c17_viol(rep, json!({"kind": "u32", "v": [x]}), c17_ints_case("u32", &[x]));
+        c17_viol(rep, pubj(json!({"kind": "vec", "v": [x]})), c17_ints_case("vec", &[x]));
+        c17_viol(rep, pubj(json!({"kind": "vec", "v": [0x61, x]})), c17_ints_case("vec", &[0x61, x]));
+        c17_viol(rep, pubj(json!({"kind": "u32", "v": [x]})), c17_ints_case("u32", &[x]));
     }
     // closure: operations applied to good strings; the strings produced in one round are the operands of the next
     let mut pool: Vec<Vec<u32>> = all_strings(&[0x61, 0xFFFD, MAX_CHAR], 2);
@@ -1272,9 +1302,10 @@ fn c17_run(ctx: &Ctx, batch: usize, nb: usize, rep: &mut Report) {
     let mut seen: HashSet<Vec<u32>> = pool.iter().cloned().collect();
     for _round in 0..rounds {
         let mut next: Vec<Vec<u32>> = vec![];
-        for a in &pool {
-            for b in &pool {
-                let c = b;
+        for (ia, a) in pool.iter().enumerate() {
+            for (ib, b) in pool.iter().enumerate() {
+                // the replacement: another string of the pool (varying with the pair), not the pattern itself
+                let c = &pool[(ia * 7 + ib * 3 + 1) % pool.len()];
                 let own = mine(&mut item);
                 if own {
                     beat();
@@ -1297,7 +1328,7 @@ fn c17_run(ctx: &Ctx, batch: usize, nb: usize, rep: &mut Report) {
                     if own {
                         rep.inc("transitions");
                         rep.inc("impl_traces");
-                        c17_viol(rep, json!({"kind": "op", "op": op, "a": a, "b": b, "c": c, "i": i, "j": j}), c17_op_case(op, a, b, c, i, j));
+                        c17_viol(rep, pubj(json!({"kind": "op", "op": op, "a": a, "b": b, "c": c, "i": i, "j": j})), c17_op_case(op, a, b, c, i, j));
                     }
                     // successor states (computed identically in every batch, so that all batches enumerate the same space)
                     if matches!(op, "concat" | "replace" | "substr" | "from_code" | "at") {
@@ -1343,10 +1374,10 @@ fn c17_run(ctx: &Ctx, batch: usize, nb: usize, rep: &mut Report) {
         match r {
             Ok(v) => {
                 for s in v {
-                    c17_viol(rep, json!({"kind": "get_string"}), c17_usable(&s, "get_string"));
+                    c17_viol(rep, pubj(json!({"kind": "get_string"})), c17_usable(&s, "get_string"));
                 }
             }
-            Err(e) => c17_viol(rep, json!({"kind": "get_string"}), Some(format!("get_string {}", e))),
+            Err(e) => c17_viol(rep, pubj(json!({"kind": "get_string"})), Some(format!("get_string {}", e))),
         }
         rep.sample(|| json!({"kind": "str", "text": "\u{30000}a", "expected": "no code point above 0x2FFFF in the result; 'a' unchanged"}));
         rep.sample(|| json!({"kind": "vec", "v": [0x61, 0x30000], "expected": [0x61, 0xFFFD]}));
@@ -1376,5 +1407,5 @@ fn c17_meta(_ctx: &Ctx) -> Meta {
 }
 
 pub fn c17_engine() -> SimpleEngine {
-    SimpleEngine { name: "c17", nb: |_| NB, run: c17_run, replay: c17_replay, meta: c17_meta, hang_violation: false }
+    SimpleEngine { name: "c17", nb: |_| NB, run: c17_run, replay: c17_replay, meta: c17_meta, hang_violation: true }
 }
